@@ -84,6 +84,27 @@ pub fn gen_c14(rng: &mut Rng, thorough: bool) -> Vec<Tagged> {
             out.push(("special-values-gettriple1".into(), Case::GetTriple(t1(v.clone()), Shape::Triple(h, w, c))));
         }
     }
+    // huge extents: beyond 2^10, 2^12 and 2^16 elements, widths that are no powers of two (block-wise or
+    // parallel rewrites of the re-chunking must keep every row boundary)
+    let huge: Vec<(usize, usize, usize)> = if thorough {
+        vec![(5, 5, 41), (17, 241, 1), (1, 1025, 1), (3, 37, 37), (3, 150, 150), (7, 100, 100), (1, 1, 65537), (2, 257, 129), (65537, 1, 1)]
+    } else {
+        vec![(5, 5, 41), (17, 241, 1), (3, 150, 150), (1, 1, 65537)]
+    };
+    for (c, h, w) in huge {
+        let n = c * h * w;
+        let v = rng.distinct(n);
+        let x1 = t1(v.clone());
+        let x3 = t3(c, h, w, &v);
+        out.push(("huge-gettriple1".into(), Case::GetTriple(x1.clone(), Shape::Triple(c, h, w))));
+        out.push(("huge-reshape13".into(), Case::Reshape(x1.clone(), Shape::Triple(c, h, w))));
+        out.push(("huge-reshape31".into(), Case::Reshape(x3.clone(), Shape::Single(n))));
+        out.push(("huge-flatten3".into(), Case::Flatten(x3.clone())));
+        out.push(("huge-getflat3".into(), Case::GetFlat(x3.clone())));
+        out.push(("huge-reshape33".into(), Case::Reshape(x3.clone(), Shape::Triple(w, c, h))));
+        out.push(("huge-gettriple3".into(), Case::GetTriple(x3, Shape::Triple(h, w, c))));
+        out.push(("huge-reshape13-ne".into(), Case::Reshape(x1, Shape::Triple(c, h, w + 1))));
+    }
     // flat to flat, unsupported ranks
     out.push(("reshape11".into(), Case::Reshape(t1(rng.distinct(6)), Shape::Single(7))));
     out.push(("flatten1".into(), Case::Flatten(t1(rng.distinct(5)))));
@@ -232,6 +253,37 @@ pub fn gen_c15(rng: &mut Rng, thorough: bool) -> Vec<Tagged> {
         out.push(("divscalar-large".into(), Case::DivScalar(a.clone(), 3.0)));
         out.push(("mean-large".into(), Case::Mean(a.clone(), vec![b.clone(), a.clone()])));
         out.push(("clamp-large".into(), Case::Clamp(a.clone(), -0.25, 0.5)));
+    }
+    // huge extents: beyond 2^10, 2^12 and 2^16 elements on every rank
+    let huge: Vec<Shape> = if thorough {
+        vec![Shape::Single(1100), Shape::Single(4100), Shape::Single(66000), Shape::Double(1030, 3), Shape::Double(3, 22001), Shape::Triple(3, 150, 150),
+             Shape::Triple(1100, 1, 2), Shape::Quadruple(2, 3, 37, 37), Shape::Quadruple(1030, 1, 2, 1)]
+    } else {
+        vec![Shape::Single(1100), Shape::Single(66000), Shape::Double(1030, 3), Shape::Triple(3, 150, 150), Shape::Quadruple(2, 3, 37, 37)]
+    };
+    for s in &huge {
+        let a = rand_tensor(rng, s, 1);
+        let b = rand_tensor(rng, s, 1);
+        for k in 0..3u8 {
+            out.push(("binop-huge".into(), Case::Binop(k, a.clone(), b.clone())));
+        }
+        out.push(("mean-huge".into(), Case::Mean(a.clone(), vec![b.clone(), a.clone()])));
+        out.push(("hadamard-huge".into(), Case::Hadamard(a.clone(), b.clone(), 0.5)));
+        out.push(("divscalar-huge".into(), Case::DivScalar(a.clone(), 3.0)));
+        out.push(("clamp-huge".into(), Case::Clamp(a.clone(), -0.25, 0.5)));
+    }
+    {
+        let (m, k) = (1030usize, 5usize);
+        let u = t1(rng.vec(m, 1));
+        let v = t1(rng.vec(k, 1));
+        out.push(("product-huge".into(), Case::Product(u.clone(), v.clone())));
+        out.push(("product-huge".into(), Case::Product(v.clone(), u.clone())));
+        let mat = t2(m, k, &rng.vec(m * k, 1));
+        out.push(("dot-huge".into(), Case::Dot(mat.clone(), v.clone())));
+        out.push(("transpose-huge".into(), Case::Transpose(mat.clone())));
+        let matt = t2(k, m, &rng.vec(m * k, 1));
+        out.push(("dot-huge".into(), Case::Dot(matt.clone(), u.clone())));
+        out.push(("transpose-huge".into(), Case::Transpose(matt)));
     }
     {
         let (m, k) = (131usize, 67usize);
